@@ -14,6 +14,7 @@ from . import curve, schnorr
 
 N = curve.N
 P = curve.P
+GX32 = curve.GX.to_bytes(32, "big")
 
 
 # ------------------------------------------------------------------------------------------------
@@ -118,7 +119,9 @@ def tweaked_secret(d, merkle_root):
 
 def control_block_ser(leaf_version, q_parity, internal_x32, path):
     """c = (leaf_version | parity bit) || p || e_0 || ... || e_{m-1}"""
-    out = ((leaf_version & 0xFE) | (q_parity & 1)).to_bytes(1, "big") + internal_x32
+    # first byte: the leaf version with its lowest bit replaced by the parity bit of Q
+    first = leaf_version - leaf_version % 2 + q_parity % 2
+    out = first.to_bytes(1, "big") + internal_x32
     for e in path:
         out = out + e
     return out
